@@ -13,8 +13,8 @@ def classify(case_line):
 CFG = dict(
     imports=["From Verif.C03 Require Import Model Spec.", "Open Scope N_scope."],
     checker="check_case",
-    n=dict(quick=320, thorough=12000),
-    shard=40,
+    n=dict(quick=240, thorough=12000),
+    shard=30,
     classify=classify,
     rule="histories (10-45 ops) on the real PolicyResolver+PolicySorter over 3-6 policy keys (same name in different "
          "namespaces/kinds), 4 tier names (+ a tier that never exists, + empty tier), 2-4 local endpoints (WEPs and a HEP): "
